@@ -743,6 +743,10 @@ type patInfo struct {
 }
 
 func selRoot(t *Term) (*Term, int) {
+	if strings.HasPrefix(t.Op, "f:uf:") {
+		// uninterpreted applications are indexed by their symbol
+		return Const("$root:"+t.Op, SBool), len(t.Args)
+	}
 	d := 0
 	for t.Op == "select" {
 		t = t.Args[0]
@@ -797,7 +801,7 @@ func (ic *instCtx) harvest(t *Term) {
 				has = true
 			}
 		}
-		if !has && t.Op == "select" && !ic.groundSeen[t] {
+		if !has && (t.Op == "select" || (strings.HasPrefix(t.Op, "f:uf:") && len(t.Args) > 0)) && !ic.groundSeen[t] {
 			ic.groundSeen[t] = true
 			ic.ground = append(ic.ground, t)
 			r, d := selRoot(t)
@@ -906,7 +910,7 @@ func (ic *instCtx) instForall(h *Term, guard *Term) {
 			}
 		}
 		isPat := false
-		if t.Op == "select" && containsAny(t, vars, memo) {
+		if (t.Op == "select" || strings.HasPrefix(t.Op, "f:uf:")) && containsAny(t, vars, memo) {
 			im := map[*Term]bool{}
 			if len(ni) == 0 || !containsAny(t, ni, im) {
 				isPat = true
